@@ -275,8 +275,7 @@ class SSH_Socket(ReadBuf, WriteBuf):
                 payload_length = packet_length - padding_length - 1
                 check_size = 4 + 1 + payload_length + padding_length
             if check_size % self.__block_size != 0:
-                self.__outputbuffer.fail('[exception] invalid ssh packet (block size)').write()
-                sys.exit(exitcodes.CONNECTION_ERROR)
+                return -1, b'invalid ssh packet (block size)'
             self.ensure_read(payload_length)
             if sshv == 1:
                 payload = self.read(payload_length - 4)
